@@ -1,14 +1,720 @@
-(* IfaceProofs.v - proofs about the interface model Iface.v (literal instance of Graph.v). *)
+(* IfaceProofs.v - proofs about the interface model Iface.v (literal instance of Graph.v).
+
+     update_state_internal_irrel   the private copy influences update_state only through its auto flag
+     update_state_auto, run_calls_auto, history_independent     ... which no call changes: earlier calls
+                                   cannot influence a later one (every state, every position)
+     assign_all_err / update_state_raises_iff    when the call raises
+     good_state                    the documented precondition: complete, coherent, no outdated flag
+     is_scratch e r                r is the from-scratch state for the input values e
+     update_state_spec             good state + valid keys: the result is_scratch (state inputs overlaid with
+                                   the position), all flags false, and is again a good state
+     scratch_view_unique           two from-scratch states for the same inputs show the same dict
+     update_state_init / equals_direct / auto_irrelevant / update_extract / log_prob_spec
+     extract_update                put-get, for every complete state
+     update_state_memo_lit         what the shards run is the literal model
+     flat laws                     dict / dataclass / named tuple overlays                              *)
 From Coq Require Import List Bool Arith Lia.
 Import ListNotations.
 From LV Require Import Graph.Graph Graph.GraphProofs Graph.GraphMemo Graph.Iface.
 
+Lemma upd_oob {A} (l : list A) k a : length l <= k -> upd l k a = l.
+Proof.
+  revert k; induction l as [|h t IH]; intros [|k] H; cbn in *; try reflexivity; try lia.
+  f_equal. apply IH. lia.
+Qed.
+
+Lemma getb_repeat_false n k : getb (repeat false n) k = false.
+Proof. unfold getb. apply nth_repeat. Qed.
+
 Section P.
 Variables (V F : Type) (interp : F -> list V -> V) (dflt : V).
-Variable I : impl V F.
 
-Lemma update_state_internal_irrel (g : graph F) nm (i1 i2 : mstate V) pos st :
+Notation graph := (graph F).
+Notation mstate := (mstate V).
+Notation snap := (snap V).
+Notation LIT := (lit interp dflt).
+Notation MEMO := (memo interp dflt).
+Notation value := (value interp dflt).
+Notation denote := (denote interp dflt).
+Notation getv := (getv dflt).
+Notation sweep := (sweep_lit interp dflt).
+Notation ustate := (update_state LIT).
+
+Lemma getv_upd (e : list V) i v k :
+  getv (upd e i v) k = if (k =? i) && (i <? length e) then v else getv e k.
+Proof.
+  unfold Graph.getv. destruct (Nat.eqb_spec k i) as [->|Hne]; cbn [andb].
+  - destruct (Nat.ltb_spec i (length e)) as [Hl|Hl].
+    + apply nth_upd_eq. exact Hl.
+    + rewrite upd_oob by exact Hl. reflexivity.
+  - apply nth_upd_neq. exact Hne.
+Qed.
+
+(* ---- the private copy matters only through its auto flag ----------------------------------------- *)
+Lemma update_state_internal_irrel (I : impl V F) (g : graph) nm (i1 i2 : mstate) pos st :
   auto i1 = auto i2 -> update_state I g nm i1 pos st = update_state I g nm i2 pos st.
 Proof. intros H. unfold update_state, restore. rewrite H. reflexivity. Qed.
 
+(* ---- unconditional facts about the sweep ------------------------------------------------------------ *)
+Lemma sweep_pres (g : graph) (P : mstate -> Prop) tgt :
+  (forall s k v n, nth_error g k = Some n -> kd n = KCached -> P s -> P (set_node s k v)) ->
+  forall s, P s -> P (fst (sweep g tgt s)).
+Proof.
+  intros H s Hs. unfold sweep_lit.
+  assert (G : forall l st, P (fst st) -> P (fst (fold_left (sweep1 interp dflt g tgt) l st))).
+  { induction l as [|k l IH]; intros st Hst; [exact Hst|]. cbn [fold_left]. apply IH.
+    unfold sweep1. destruct (nth_error g k) as [n|] eqn:E; [|exact Hst].
+    destruct (tgt k && outdated g (fst st) k); [|exact Hst].
+    destruct (kd n) eqn:K; try exact Hst. cbn [fst]. apply (H _ _ _ n); auto. }
+  apply G. exact Hs.
+Qed.
+
+Lemma sweep_auto (g : graph) tgt s : auto (fst (sweep g tgt s)) = auto s.
+Proof. apply (sweep_pres g (fun x => auto x = auto s)); [|reflexivity]. intros; assumption. Qed.
+
+Lemma sweep_vals_len (g : graph) tgt s : length (vals (fst (sweep g tgt s))) = length (vals s).
+Proof.
+  apply (sweep_pres g (fun x => length (vals x) = length (vals s))); [|reflexivity].
+  intros s0 k v n _ _ H. cbn. rewrite upd_length. exact H.
+Qed.
+
+Lemma sweep_noncached (g : graph) tgt s k n : nth_error g k = Some n -> kd n <> KCached ->
+  getv (vals (fst (sweep g tgt s))) k = getv (vals s) k.
+Proof.
+  intros E K. apply (sweep_pres g (fun x => getv (vals x) k = getv (vals s) k)); [|reflexivity].
+  intros s0 k' v n' E' K' H. cbn [set_node vals]. rewrite getv_upd.
+  destruct (Nat.eqb_spec k k') as [->|Hne]; cbn [andb]; [|exact H].
+  rewrite E in E'. injection E' as <-. contradiction.
+Qed.
+
+(* ---- one assignment ------------------------------------------------------------------------------------- *)
+Definition assigned (g : graph) (s : mstate) i v : mstate :=
+  let s1 := assign_flag LIT g s i v in if auto s then fst (sweep g full s1) else s1.
+
+Lemma step_assign_ok (g : graph) rs i v n : nth_error g i = Some n -> kd n = KValue ->
+  err (step interp dflt g rs (Assign i v)) = false
+  /\ cur (st' (step interp dflt g rs (Assign i v))) = assigned g (cur rs) i v.
+Proof.
+  intros E K. unfold step, step_with, assigned. rewrite E, K.
+  destruct (auto (cur rs)); cbn; split; reflexivity.
+Qed.
+
+Lemma step_assign_err (g : graph) rs i v :
+  (match nth_error g i with Some n => kd n <> KValue | None => True end) ->
+  err (step interp dflt g rs (Assign i v)) = true.
+Proof.
+  intros H. unfold step, step_with. destruct (nth_error g i) as [n|]; [|reflexivity].
+  destruct (kd n); try reflexivity. contradiction.
+Qed.
+
+Definition key_ok (g : graph) nm k : bool :=
+  match resolve nm k with
+  | Some i => match nth_error g i with
+              | Some n => match kd n with KValue => true | _ => false end
+              | None => false end
+  | None => false end.
+
+Lemma pos_ok_cons (g : graph) nm k ks : pos_ok g nm (k :: ks) = key_ok g nm k && pos_ok g nm ks.
+Proof. reflexivity. Qed.
+
+Lemma key_ok_inv (g : graph) nm k : key_ok g nm k = true ->
+  exists i n, resolve nm k = Some i /\ nth_error g i = Some n /\ kd n = KValue.
+Proof.
+  unfold key_ok. destruct (resolve nm k) as [i|]; [|discriminate].
+  destruct (nth_error g i) as [n|] eqn:E; [|discriminate].
+  destruct (kd n) eqn:K; try discriminate. intros _. exists i, n. auto.
+Qed.
+
+Lemma assigned_auto (g : graph) s i v : auto (assigned g s i v) = auto s.
+Proof. unfold assigned. destruct (auto s) eqn:A; [rewrite sweep_auto|]; cbn; auto. Qed.
+
+Lemma assigned_len (g : graph) s i v : length (vals (assigned g s i v)) = length (vals s).
+Proof. unfold assigned. destruct (auto s); [rewrite sweep_vals_len|]; cbn; apply upd_length. Qed.
+
+Lemma assigned_vals (g : graph) s i v k n : nth_error g k = Some n -> kd n = KValue ->
+  getv (vals (assigned g s i v)) k = getv (upd (vals s) i v) k.
+Proof.
+  intros E K. unfold assigned. destruct (auto s); [|reflexivity].
+  rewrite (sweep_noncached g full _ k n E) by congruence. reflexivity.
+Qed.
+
+(* the loop of assignments raises exactly when some key does not name an assignable node *)
+Lemma assign_all_err (g : graph) nm : forall pos s,
+  snd (assign_all LIT g nm s pos) = negb (pos_ok g nm (map fst pos)).
+Proof.
+  induction pos as [|[k v] r IH]; intros s; [reflexivity|].
+  cbn [assign_all map fst]. rewrite pos_ok_cons. unfold key_ok.
+  destruct (resolve nm k) as [i|]; [|reflexivity].
+  fold (step interp dflt g (mkR s []) (Assign i v)).
+  destruct (nth_error g i) as [n|] eqn:E.
+  - destruct (kd n) eqn:K.
+    + destruct (step_assign_ok g (mkR s []) i v n E K) as [H1 H2]. rewrite H1. cbn [andb]. apply IH.
+    + rewrite step_assign_err; [reflexivity|]. rewrite E. congruence.
+    + rewrite step_assign_err; [reflexivity|]. rewrite E. congruence.
+  - rewrite step_assign_err; [reflexivity|]. rewrite E. exact Logic.I.
+Qed.
+
+Lemma assign_all_cons_ok (g : graph) nm s k v r i n :
+  resolve nm k = Some i -> nth_error g i = Some n -> kd n = KValue ->
+  assign_all LIT g nm s ((k, v) :: r) = assign_all LIT g nm (assigned g s i v) r.
+Proof.
+  intros R E K. cbn [assign_all]. rewrite R.
+  fold (step interp dflt g (mkR s []) (Assign i v)).
+  destruct (step_assign_ok g (mkR s []) i v n E K) as [H1 H2]. rewrite H1, H2. reflexivity.
+Qed.
+
+Lemma assign_all_auto (g : graph) nm : forall pos s, auto (fst (assign_all LIT g nm s pos)) = auto s.
+Proof.
+  induction pos as [|[k v] r IH]; intros s; [reflexivity|].
+  cbn [assign_all]. destruct (resolve nm k) as [i|]; [|reflexivity].
+  fold (step interp dflt g (mkR s []) (Assign i v)).
+  destruct (err (step interp dflt g (mkR s []) (Assign i v))) eqn:Er; [reflexivity|].
+  rewrite IH. unfold step, step_with in *. cbn [cur] in *.
+  destruct (nth_error g i) as [n|]; [|discriminate]. destruct (kd n); try discriminate.
+  destruct (auto s) eqn:A; cbn; [rewrite sweep_auto|]; cbn; auto.
+Qed.
+
+Lemma update_state_auto (g : graph) nm i pos st : auto (fst (ustate g nm i pos st)) = auto i.
+Proof.
+  unfold update_state. destruct (snd (assign_all LIT g nm _ pos)); cbn [fst].
+  - rewrite assign_all_auto. reflexivity.
+  - cbn [i_sweep lit]. rewrite sweep_auto, assign_all_auto. reflexivity.
+Qed.
+
+Lemma run_calls_auto (g : graph) nm : forall calls i, auto (run_calls LIT g nm i calls) = auto i.
+Proof.
+  induction calls as [|c r IH]; intros i; [reflexivity|].
+  unfold run_calls in *. cbn [fold_left]. rewrite IH. apply update_state_auto.
+Qed.
+
+(* the result (and the new private state) of a call does not depend on the calls made before *)
+Theorem history_independent (g : graph) nm i0 calls pos st :
+  ustate g nm (run_calls LIT g nm i0 calls) pos st = ustate g nm i0 pos st.
+Proof. apply update_state_internal_irrel. apply run_calls_auto. Qed.
+
+Theorem update_state_raises_iff (g : graph) nm i pos st :
+  snd (ustate g nm i pos st) = None <-> pos_ok g nm (map fst pos) = false.
+Proof.
+  unfold update_state. rewrite assign_all_err.
+  destruct (pos_ok g nm (map fst pos)); cbn; split; intros H; try reflexivity; discriminate.
+Qed.
+
+Lemma some_pos_ok (g : graph) nm i pos st r :
+  snd (ustate g nm i pos st) = Some r -> pos_ok g nm (map fst pos) = true.
+Proof.
+  intros H. destruct (pos_ok g nm (map fst pos)) eqn:P; [reflexivity|].
+  apply (proj2 (update_state_raises_iff g nm i pos st)) in P. rewrite P in H. discriminate.
+Qed.
+
+(* values of the Value nodes after the loop: the overlay; needs only a complete value list *)
+Lemma overlay_cons nm (e : list V) k v r i : resolve nm k = Some i ->
+  overlay nm e ((k, v) :: r) = overlay nm (upd e i v) r.
+Proof. intros R. unfold overlay. cbn [fold_left fst snd]. rewrite R. reflexivity. Qed.
+
+Lemma overlay_cons_none nm (e : list V) k v r : resolve nm k = None ->
+  overlay nm e ((k, v) :: r) = overlay nm e r.
+Proof. intros R. unfold overlay. cbn [fold_left fst snd]. rewrite R. reflexivity. Qed.
+
+Lemma overlay_length nm : forall pos (e : list V), length (overlay nm e pos) = length e.
+Proof.
+  induction pos as [|[k v] r IH]; intros e; [reflexivity|].
+  unfold overlay in *. cbn [fold_left fst snd]. destruct (resolve nm k) as [i|]; rewrite IH; [apply upd_length|reflexivity].
+Qed.
+
+Lemma overlay_agree nm j : forall pos (e1 e2 : list V), length e1 = length e2 -> getv e1 j = getv e2 j ->
+  getv (overlay nm e1 pos) j = getv (overlay nm e2 pos) j.
+Proof.
+  induction pos as [|[k v] r IH]; intros e1 e2 L H; [exact H|].
+  unfold overlay in *. cbn [fold_left fst snd]. destruct (resolve nm k) as [i|]; [|apply IH; auto].
+  apply IH; [rewrite !upd_length; exact L|]. rewrite !getv_upd, L, H. reflexivity.
+Qed.
+
+Lemma assign_all_vals (g : graph) nm : forall pos s, length (vals s) = length g ->
+  pos_ok g nm (map fst pos) = true ->
+  length (vals (fst (assign_all LIT g nm s pos))) = length g
+  /\ forall j n, nth_error g j = Some n -> kd n = KValue ->
+       getv (vals (fst (assign_all LIT g nm s pos))) j = getv (overlay nm (vals s) pos) j.
+Proof.
+  induction pos as [|[k v] r IH]; intros s L P; [split; [exact L|reflexivity]|].
+  cbn [map fst] in P. rewrite pos_ok_cons in P. apply andb_true_iff in P. destruct P as [P1 P2].
+  destruct (key_ok_inv g nm k P1) as [i [n [R [E K]]]].
+  rewrite (assign_all_cons_ok g nm s k v r i n R E K), (overlay_cons nm _ k v r i R).
+  assert (L' : length (vals (assigned g s i v)) = length g) by (rewrite assigned_len; exact L).
+  destruct (IH (assigned g s i v) L' P2) as [H1 H2]. split; [exact H1|].
+  intros j m Ej Kj. rewrite (H2 j m Ej Kj).
+  apply overlay_agree; [rewrite assigned_len, upd_length; reflexivity|].
+  apply (assigned_vals g s i v j m Ej Kj).
+Qed.
+
+Section WF.
+Variable g : graph.
+Hypothesis W : wf g.
+
+Notation Inv := (Inv V F interp dflt g).
+Notation snap_ok := (snap_ok V F interp dflt g).
+Notation RInv := (RInv V F interp dflt g).
+Notation cached := (cached F g).
+
+(* the precondition LieselInterface.update_state documents ("the model_state must be up-to-date"), plus:
+   the state is a complete state of this model whose cached values are the from-scratch values *)
+Definition good_state (st : snap) : Prop :=
+  snap_ok st /\ forall k, k < length g -> getb (sn_flags st) k = false.
+
+(* r is the from-scratch state (what Model.__init__ computes) for the input values e *)
+Definition is_scratch (e : list V) (r : snap) : Prop :=
+  good_state r /\ forall k n, nth_error g k = Some n -> kd n = KValue -> getv (sn_vals r) k = getv e k.
+
+Lemma assigned_Inv s i v n : nth_error g i = Some n -> kd n = KValue -> Inv s -> Inv (assigned g s i v).
+Proof.
+  intros E K H. unfold assigned. pose proof (assign_flag_Inv V F interp dflt g W s i v n E K H) as H1.
+  destruct (auto s); [|exact H1].
+  exact (proj1 (sweep_spec V F interp dflt g W full _ (full_closed F g) H1)).
+Qed.
+
+Lemma assign_all_Inv nm : forall pos s, Inv s -> pos_ok g nm (map fst pos) = true ->
+  Inv (fst (assign_all LIT g nm s pos)).
+Proof.
+  induction pos as [|[k v] r IH]; intros s H P; [exact H|].
+  cbn [map fst] in P. rewrite pos_ok_cons in P. apply andb_true_iff in P. destruct P as [P1 P2].
+  destruct (key_ok_inv g nm k P1) as [i [n [R [E K]]]].
+  rewrite (assign_all_cons_ok g nm s k v r i n R E K). apply IH; [|exact P2].
+  apply (assigned_Inv s i v n E K H).
+Qed.
+
+Lemma clear_Inv internal st : good_state st -> Inv (clear_flags g (restore internal st)).
+Proof.
+  intros [[[L1 [L2 L3]] [I G]] U]. cbn [vals dirty touched] in L1, L2, L3. split; [|split].
+  - unfold lens, clear_flags, restore. cbn [vals dirty touched]. rewrite repeat_length. auto.
+  - intros k Ck _. unfold clear_flags, restore. cbn [vals dirty touched]. apply (I k Ck).
+    cbn [dirty]. apply U. apply (cached_lt F g k Ck).
+  - intros k _ D. unfold clear_flags, restore in D. cbn [vals dirty touched] in D.
+    rewrite getb_repeat_false in D. discriminate.
+Qed.
+
+Lemma good_state_cached st k n : good_state st -> nth_error g k = Some n -> kd n = KCached ->
+  getv (sn_vals st) k = denote g (sn_vals st) k.
+Proof.
+  intros [[_ [I _]] U] E K. assert (C : cached k) by (exists n; auto).
+  apply (I k C). cbn. apply U. apply (cached_lt F g k C).
+Qed.
+
+Lemma snapshot_good s : Inv s -> (forall k, k < length g -> outdated g s k = false) ->
+  good_state (snapshot LIT g s).
+Proof.
+  intros H U. split; [apply (snapshot_ok V F interp dflt g W s H)|].
+  intros k Hk. unfold snapshot. cbn [sn_flags i_flags lit]. rewrite (flags_lit_get V F g s k Hk). apply U. exact Hk.
+Qed.
+
+(* update_state on an up-to-date state with valid keys *)
+Theorem update_state_spec nm internal pos st : good_state st -> pos_ok g nm (map fst pos) = true ->
+  exists r, snd (ustate g nm internal pos st) = Some r
+            /\ is_scratch (overlay nm (sn_vals st) pos) r.
+Proof.
+  intros G P. unfold update_state.
+  set (s0 := clear_flags g (restore internal st)).
+  rewrite assign_all_err, P. cbn [negb snd fst i_sweep lit].
+  set (s1 := fst (assign_all LIT g nm s0 pos)).
+  eexists. split; [reflexivity|].
+  pose proof (clear_Inv internal st G) as I0. fold s0 in I0.
+  pose proof (assign_all_Inv nm pos s0 I0 P) as I1. fold s1 in I1.
+  assert (L0 : length (vals s0) = length g) by (destruct I0 as [[L _] _]; exact L).
+  destruct (assign_all_vals g nm pos s0 L0 P) as [_ V1]. fold s1 in V1.
+  destruct (sweep_spec V F interp dflt g W full s1 (full_closed F g) I1) as [I2 [C2 [_ [_ [_ [N2 _]]]]]].
+  split.
+  - apply snapshot_good; [exact I2|]. intros k Hk. apply C2; auto.
+  - intros k n E K. cbn [snapshot sn_vals]. rewrite (N2 k n E) by congruence. apply (V1 k n E K).
+Qed.
+
+Lemma is_scratch_values e r : is_scratch e r ->
+  forall k n, nth_error g k = Some n -> kd n <> KTrans -> getv (sn_vals r) k = denote g e k.
+Proof.
+  intros [G Vv] k n E K.
+  assert (D : forall j, denote g (sn_vals r) j = denote g e j).
+  { apply (den_agree V F interp dflt g W). intros i m Ei Ki. apply (Vv i m Ei Ki). }
+  destruct (kd n) eqn:Kn; [| |contradiction].
+  - rewrite (Vv k n E Kn). rewrite (denote_unfold V F interp dflt g W e k n E), Kn. reflexivity.
+  - rewrite (good_state_cached r k n G E Kn). apply D.
+Qed.
+
+(* the same, spelled out: no flag, every non-transient node holds the from-scratch value for the state's
+   input values overlaid with the position, and the result is again a good state (calls can be chained) *)
+Theorem update_state_spec_explicit nm internal pos st : good_state st -> pos_ok g nm (map fst pos) = true ->
+  exists r, snd (ustate g nm internal pos st) = Some r
+    /\ (forall k, k < length g -> getb (sn_flags r) k = false)
+    /\ (forall k n, nth_error g k = Some n -> kd n <> KTrans ->
+          getv (sn_vals r) k = denote g (overlay nm (sn_vals st) pos) k)
+    /\ good_state r.
+Proof.
+  intros G P. destruct (update_state_spec nm internal pos st G P) as [r [H S]].
+  exists r. split; [exact H|]. split; [exact (proj2 (proj1 S))|]. split; [|exact (proj1 S)].
+  apply (is_scratch_values _ r S).
+Qed.
+
+(* two from-scratch states for the same inputs show the same dict *)
+Lemma scratch_view_unique e r1 r2 : is_scratch e r1 -> is_scratch e r2 -> view dflt g r1 = view dflt g r2.
+Proof.
+  intros S1 S2. unfold view. apply map_ext_in. intros k Hk. apply in_seq in Hk. destruct Hk as [_ Hk].
+  cbn in Hk. f_equal.
+  - unfold stval. destruct (nth_error g k) as [n|] eqn:E; [|reflexivity].
+    destruct (kd n) eqn:K; try reflexivity.
+    + rewrite (is_scratch_values e r1 S1 k n E), (is_scratch_values e r2 S2 k n E) by congruence. reflexivity.
+    + rewrite (is_scratch_values e r1 S1 k n E), (is_scratch_values e r2 S2 k n E) by congruence. reflexivity.
+  - destruct S1 as [[_ U1] _], S2 as [[_ U2] _]. rewrite U1, U2 by exact Hk. reflexivity.
+Qed.
+
+(* Model.__init__ on the input values e *)
+Lemma init_is_scratch e : is_scratch e (snapshot LIT g (cur (init interp dflt g e))).
+Proof.
+  split.
+  - apply snapshot_good; [exact (proj1 (init_RInv V F interp dflt g W e))|].
+    intros k Hk. apply (init_clean V F interp dflt g W e k Hk).
+  - intros k n E K. cbn [snapshot sn_vals init init_with cur i_sweep lit].
+    rewrite (sweep_noncached g full _ k n E) by congruence. cbn [init_state vals].
+    unfold Graph.getv at 1. rewrite nth_map_seq; [reflexivity|]. apply (wf_lt F g k n E).
+Qed.
+
+Theorem update_state_init nm internal pos st r : good_state st ->
+  snd (ustate g nm internal pos st) = Some r ->
+  view dflt g r = view dflt g (snapshot LIT g (cur (init interp dflt g (overlay nm (sn_vals st) pos)))).
+Proof.
+  intros G H. pose proof (some_pos_ok _ _ _ _ _ _ H) as P.
+  destruct (update_state_spec nm internal pos st G P) as [r' [H' S]]. rewrite H in H'. injection H' as <-.
+  apply (scratch_view_unique _ _ _ S (init_is_scratch _)).
+Qed.
+
+(* the same with both values of the private copy's auto_update (i.e. whatever the user's model had when the
+   interface was created) and after any earlier calls *)
+Theorem auto_irrelevant nm i1 i2 pos st : good_state st ->
+  match snd (ustate g nm i1 pos st), snd (ustate g nm i2 pos st) with
+  | Some r1, Some r2 => view dflt g r1 = view dflt g r2
+  | None, None => True
+  | _, _ => False
+  end.
+Proof.
+  intros G. destruct (pos_ok g nm (map fst pos)) eqn:P.
+  - destruct (update_state_spec nm i1 pos st G P) as [r1 [H1 S1]].
+    destruct (update_state_spec nm i2 pos st G P) as [r2 [H2 S2]]. rewrite H1, H2.
+    apply (scratch_view_unique _ _ _ S1 S2).
+  - pose proof (proj2 (update_state_raises_iff g nm i1 pos st) P) as H1.
+    pose proof (proj2 (update_state_raises_iff g nm i2 pos st) P) as H2. rewrite H1, H2. exact Logic.I.
+Qed.
+
+(* ---- direct assignment on a model -------------------------------------------------------------------- *)
+Lemma run_app ops1 ops2 rs :
+  run interp dflt g (ops1 ++ ops2) rs = run interp dflt g ops2 (run interp dflt g ops1 rs).
+Proof. unfold run, run_with. apply fold_left_app. Qed.
+
+Lemma direct_assigns nm : forall pos rs, pos_ok g nm (map fst pos) = true ->
+  cur (run interp dflt g
+         (flat_map (fun kv => match resolve nm (fst kv) with Some i => [Assign i (snd kv)] | None => [] end) pos) rs)
+  = fst (assign_all LIT g nm (cur rs) pos).
+Proof.
+  induction pos as [|[k v] r IH]; intros rs P; [reflexivity|].
+  cbn [map fst] in P. rewrite pos_ok_cons in P. apply andb_true_iff in P. destruct P as [P1 P2].
+  destruct (key_ok_inv g nm k P1) as [i [n [R [E K]]]].
+  rewrite (assign_all_cons_ok g nm (cur rs) k v r i n R E K).
+  cbn [flat_map fst snd]. rewrite R. rewrite run_app. rewrite IH by exact P2.
+  assert (Hc : cur (run interp dflt g [Assign i v] rs) = assigned g (cur rs) i v).
+  { destruct (step_assign_ok g rs i v n E K) as [_ H2]. exact H2. }
+  rewrite Hc. reflexivity.
+Qed.
+
+Theorem direct_is_scratch nm pos rs : RInv rs -> pos_ok g nm (map fst pos) = true ->
+  is_scratch (overlay nm (vals (cur rs)) pos)
+             (snapshot LIT g (cur (run interp dflt g (direct_ops nm pos) rs))).
+Proof.
+  intros [H _] P. unfold direct_ops. rewrite run_app.
+  set (rs1 := run interp dflt g (flat_map _ pos) rs).
+  assert (C1 : cur rs1 = fst (assign_all LIT g nm (cur rs) pos)) by (apply direct_assigns; exact P).
+  unfold run, run_with. cbn [fold_left]. unfold step_with. cbn [st' ok_out with_cur cur i_sweep lit].
+  rewrite C1. set (s1 := fst (assign_all LIT g nm (cur rs) pos)).
+  pose proof (assign_all_Inv nm pos (cur rs) H P) as I1. fold s1 in I1.
+  assert (L0 : length (vals (cur rs)) = length g) by (destruct H as [[L _] _]; exact L).
+  destruct (assign_all_vals g nm pos (cur rs) L0 P) as [_ V1]. fold s1 in V1.
+  destruct (sweep_spec V F interp dflt g W full s1 (full_closed F g) I1) as [I2 [C2 [_ [_ [_ [N2 _]]]]]].
+  split.
+  - apply snapshot_good; [exact I2|]. intros k Hk. apply C2; auto.
+  - intros k n E K. cbn [snapshot sn_vals]. rewrite (N2 k n E) by congruence. apply (V1 k n E K).
+Qed.
+
+(* update_state(pos, model.state) shows what the model itself shows after the same values are assigned
+   directly and the model is fully updated - whatever auto_update is on either side *)
+Theorem equals_direct nm internal pos rs r : RInv rs ->
+  (forall k, k < length g -> outdated g (cur rs) k = false) ->
+  snd (ustate g nm internal pos (snapshot LIT g (cur rs))) = Some r ->
+  view dflt g r = view dflt g (snapshot LIT g (cur (run interp dflt g (direct_ops nm pos) rs))).
+Proof.
+  intros R U H.
+  assert (G : good_state (snapshot LIT g (cur rs))) by (apply snapshot_good; [exact (proj1 R)|exact U]).
+  pose proof (some_pos_ok _ _ _ _ _ _ H) as P.
+  destruct (update_state_spec nm internal pos _ G P) as [r' [H' S]]. rewrite H in H'. injection H' as <-.
+  apply (scratch_view_unique _ _ _ S). apply direct_is_scratch; assumption.
+Qed.
+
+(* ---- log_prob ------------------------------------------------------------------------------------------ *)
+Theorem log_prob_spec nm internal pos st r lp n : good_state st ->
+  snd (ustate g nm internal pos st) = Some r ->
+  nth_error g lp = Some n -> kd n = KCached ->
+  log_prob dflt g lp r = Some (Some (denote g (overlay nm (sn_vals st) pos) lp)).
+Proof.
+  intros G H E K.
+  pose proof (some_pos_ok _ _ _ _ _ _ H) as P.
+  destruct (update_state_spec nm internal pos st G P) as [r' [H' S]]. rewrite H in H'. injection H' as <-.
+  unfold log_prob, stval. rewrite E, K. rewrite (is_scratch_values _ r S lp n E) by congruence. reflexivity.
+Qed.
+
+(* the variant before repair 3a71d35: a transient "_model_log_prob" node has no value in any model state *)
+Theorem log_prob_transient_none lp n (r : snap) : nth_error g lp = Some n -> kd n = KTrans ->
+  log_prob dflt g lp r = Some None.
+Proof. intros E K. unfold log_prob, stval. rewrite E, K. reflexivity. Qed.
+
+(* ---- put-get: every complete state --------------------------------------------------------------------- *)
+Lemma overlay_untouched nm i : forall pos (e : list V),
+  (forall kv, In kv pos -> resolve nm (fst kv) <> Some i) -> getv (overlay nm e pos) i = getv e i.
+Proof.
+  induction pos as [|[k v] r IH]; intros e H; [reflexivity|].
+  unfold overlay in *. cbn [fold_left fst snd].
+  destruct (resolve nm k) as [i'|] eqn:R.
+  - rewrite IH by (intros kv Hkv; apply H; right; exact Hkv). rewrite getv_upd.
+    destruct (Nat.eqb_spec i i') as [->|Hne]; cbn [andb]; [|reflexivity].
+    exfalso. apply (H (k, v)); [left; reflexivity|exact R].
+  - apply IH. intros kv Hkv. apply H. right. exact Hkv.
+Qed.
+
+Lemma overlay_get nm : forall pos (e : list V) k v i,
+  NoDup (map (fun kv => resolve nm (fst kv)) pos) -> In (k, v) pos -> resolve nm k = Some i ->
+  i < length e -> getv (overlay nm e pos) i = v.
+Proof.
+  induction pos as [|[k0 v0] r IH]; intros e k v i N Hin R L; [contradiction|].
+  cbn [map fst] in N. inversion N as [|x l Hnot N' Ex]; subst.
+  destruct Hin as [Heq|Hin].
+  - injection Heq as -> ->. rewrite (overlay_cons nm e k v r i R).
+    rewrite overlay_untouched.
+    + rewrite getv_upd, Nat.eqb_refl. apply Nat.ltb_lt in L. rewrite L. reflexivity.
+    + intros kv Hkv Hr. apply Hnot. rewrite R. rewrite <- Hr. apply in_map_iff. exists kv. auto.
+  - destruct (resolve nm k0) as [i0|] eqn:R0.
+    + rewrite (overlay_cons nm e k0 v0 r i0 R0). apply (IH _ k v i N' Hin R). rewrite upd_length. exact L.
+    + rewrite (overlay_cons_none nm e k0 v0 r R0). apply (IH _ k v i N' Hin R). exact L.
+Qed.
+
+Theorem extract_update nm internal pos st r : length (sn_vals st) = length g ->
+  NoDup (map (fun kv => resolve nm (fst kv)) pos) ->
+  snd (ustate g nm internal pos st) = Some r ->
+  extract_position dflt g nm (map fst pos) r = Some (map (fun kv => Some (snd kv)) pos).
+Proof.
+  intros L N H.
+  pose proof (some_pos_ok _ _ _ _ _ _ H) as P.
+  unfold update_state in H. rewrite assign_all_err, P in H. cbn [negb snd fst i_sweep lit] in H.
+  injection H as <-.
+  set (s0 := clear_flags g (restore internal st)).
+  assert (L0 : length (vals s0) = length g) by exact L.
+  destruct (assign_all_vals g nm pos s0 L0 P) as [_ V1].
+  assert (Hv : forall k v, In (k, v) pos -> exists i n, resolve nm k = Some i /\ nth_error g i = Some n /\ kd n = KValue
+             /\ getv (vals (fst (sweep g full (fst (assign_all LIT g nm s0 pos))))) i = v).
+  { intros k v Hin. assert (Hk : key_ok g nm k = true).
+    { unfold pos_ok in P. rewrite forallb_forall in P. apply (P k). apply in_map_iff. exists (k, v). auto. }
+    destruct (key_ok_inv g nm k Hk) as [i [n [R [E K]]]]. exists i, n. repeat split; auto.
+    rewrite (sweep_noncached g full _ i n E) by congruence. rewrite (V1 i n E K).
+    apply (overlay_get nm pos (vals s0) k v i N Hin R). rewrite L0. apply (wf_lt F g i n E). }
+  set (rr := snapshot LIT g (fst (sweep g full (fst (assign_all LIT g nm s0 pos))))).
+  assert (Hrr : forall i, getv (sn_vals rr) i
+            = getv (vals (fst (sweep g full (fst (assign_all LIT g nm s0 pos))))) i) by reflexivity.
+  assert (Gl : forall l, (forall k v, In (k, v) l -> In (k, v) pos) ->
+            extract_position dflt g nm (map fst l) rr = Some (map (fun kv => Some (snd kv)) l)).
+  { induction l as [|[k v] l IH]; intros Hl; [reflexivity|].
+    cbn [map fst snd extract_position].
+    destruct (Hv k v (Hl k v (or_introl eq_refl))) as [i [n [R [E [K Gv]]]]]. rewrite R.
+    unfold stval at 1. rewrite E, K. rewrite Hrr, Gv.
+    rewrite IH; [reflexivity|]. intros k' v' Hin. apply Hl. right. exact Hin. }
+  apply Gl. auto.
+Qed.
+
+(* ---- get-put ---------------------------------------------------------------------------------------------- *)
+Lemma overlay_same nm : forall pos (e : list V),
+  (forall k v i, In (k, v) pos -> resolve nm k = Some i -> getv e i = v) ->
+  forall j, getv (overlay nm e pos) j = getv e j.
+Proof.
+  induction pos as [|[k v] r IH]; intros e H j; [reflexivity|].
+  unfold overlay in *. cbn [fold_left fst snd]. destruct (resolve nm k) as [i|] eqn:R.
+  - assert (Hi : forall j', getv (upd e i v) j' = getv e j').
+    { intros j'. rewrite getv_upd. destruct (Nat.eqb_spec j' i) as [->|]; cbn [andb]; [|reflexivity].
+      destruct (i <? length e); [|reflexivity]. symmetry. apply (H k v i); [left; reflexivity|exact R]. }
+    rewrite IH; [apply Hi|]. intros k' v' i' Hin R'. rewrite Hi. apply (H k' v' i'); [right; exact Hin|exact R'].
+  - apply IH. intros k' v' i' Hin R'. apply (H k' v' i'); [right; exact Hin|exact R'].
+Qed.
+
+Lemma extract_values nm : forall pos (st : snap),
+  extract_position dflt g nm (map fst pos) st = Some (map (fun kv => Some (snd kv)) pos) ->
+  forall k v i, In (k, v) pos -> resolve nm k = Some i -> getv (sn_vals st) i = v.
+Proof.
+  induction pos as [|[k0 v0] r IH]; intros st H k v i Hin R; [contradiction|].
+  cbn [map fst snd extract_position] in H.
+  destruct (resolve nm k0) as [i0|] eqn:R0; [|discriminate].
+  destruct (stval dflt g st i0) as [x|] eqn:Sv; [|discriminate].
+  destruct (extract_position dflt g nm (map fst r) st) as [xs|] eqn:Ex; [|discriminate].
+  injection H as Hx Hxs. destruct Hin as [Heq|Hin].
+  - injection Heq as -> ->. rewrite R in R0. injection R0 as <-.
+    unfold stval in Sv. destruct (nth_error g i) as [n|]; [|discriminate].
+    destruct (kd n); injection Sv as <-; try discriminate; injection Hx as <-; reflexivity.
+  - subst xs. apply (IH st Ex k v i Hin R).
+Qed.
+
+(* putting back what extract_position returns leaves an up-to-date state as it is *)
+Theorem update_extract nm internal pos st r : good_state st ->
+  extract_position dflt g nm (map fst pos) st = Some (map (fun kv => Some (snd kv)) pos) ->
+  snd (ustate g nm internal pos st) = Some r ->
+  view dflt g r = view dflt g st.
+Proof.
+  intros G Ex H.
+  pose proof (some_pos_ok _ _ _ _ _ _ H) as P.
+  destruct (update_state_spec nm internal pos st G P) as [r' [H' [G' S]]]. rewrite H in H'. injection H' as <-.
+  pose proof (overlay_same nm pos (sn_vals st) (extract_values nm pos st Ex)) as Ov.
+  apply (scratch_view_unique (sn_vals st)).
+  - split; [exact G'|]. intros k n E K. rewrite (S k n E K). apply Ov.
+  - split; [exact G|]. reflexivity.
+Qed.
+
+(* ---- what the shards execute ------------------------------------------------------------------------------ *)
+Lemma assign_all_memo_lit nm : forall pos s, length (vals s) = length g ->
+  assign_all MEMO g nm s pos = assign_all LIT g nm s pos.
+Proof.
+  induction pos as [|[k v] r IH]; intros s L; [reflexivity|].
+  cbn [assign_all]. destruct (resolve nm k) as [i|]; [|reflexivity].
+  fold (mstep interp dflt g (mkR s []) (Assign i v)). fold (step interp dflt g (mkR s []) (Assign i v)).
+  rewrite (step_memo_lit V F interp dflt g W (mkR s []) (Assign i v) L).
+  destruct (err (step interp dflt g (mkR s []) (Assign i v))) eqn:Er; [reflexivity|].
+  apply IH. unfold step, step_with in *. cbn [cur] in *.
+  destruct (nth_error g i) as [n|]; [|discriminate]. destruct (kd n); try discriminate.
+  destruct (auto s); cbn; [rewrite sweep_vals_len|]; cbn; rewrite upd_length; exact L.
+Qed.
+
+Theorem update_state_memo_lit nm internal pos st : length (sn_vals st) = length g ->
+  update_state MEMO g nm internal pos st = update_state LIT g nm internal pos st.
+Proof.
+  intros L. unfold update_state.
+  rewrite (assign_all_memo_lit nm pos (clear_flags g (restore internal st)) L).
+  destruct (snd (assign_all LIT g nm _ pos)) eqn:Er; [reflexivity|].
+  cbn [i_sweep memo lit]. rewrite (sweep_memo_lit V F interp dflt g W).
+  - rewrite (snapshot_memo V F interp dflt g W). reflexivity.
+  - assert (H : forall pos s, length (vals s) = length g ->
+                length (vals (fst (assign_all LIT g nm s pos))) = length g).
+    { clear. induction pos as [|[k v] r IH]; intros s Ls; [exact Ls|].
+      cbn [assign_all]. destruct (resolve nm k) as [i|]; [|exact Ls].
+      fold (step interp dflt g (mkR s []) (Assign i v)).
+      destruct (err (step interp dflt g (mkR s []) (Assign i v))) eqn:Er; [exact Ls|].
+      apply IH. unfold step, step_with in *. cbn [cur] in *.
+      destruct (nth_error g i) as [n|]; [|discriminate]. destruct (kd n); try discriminate.
+      destruct (auto s); cbn; [rewrite sweep_vals_len|]; cbn; rewrite upd_length; exact Ls. }
+    apply H. exact L.
+Qed.
+
+End WF.
 End P.
+
+(* ---- flat interfaces ------------------------------------------------------------------------------------------ *)
+Section FlatLaws.
+Variable V : Type.
+Notation fstate := (fstate V).
+
+Lemma fget_fset_eq (st : fstate) k v : fhas st k = true -> fget (fset st k v) k = Some v.
+Proof.
+  unfold fhas. induction st as [|[k' v'] r IH]; cbn; [discriminate|].
+  destruct (Nat.eqb_spec k' k) as [->|Hne]; cbn.
+  - rewrite Nat.eqb_refl. reflexivity.
+  - destruct (Nat.eqb_spec k' k); [contradiction|]. exact IH.
+Qed.
+
+Lemma fget_fset_neq (st : fstate) k v k' : k <> k' -> fget (fset st k v) k' = fget st k'.
+Proof.
+  intros Hne. induction st as [|[k0 v0] r IH]; cbn; [reflexivity|].
+  destruct (Nat.eqb_spec k0 k) as [->|H0]; cbn.
+  - destruct (Nat.eqb_spec k k'); [contradiction|reflexivity].
+  - destruct (k0 =? k'); [reflexivity|exact IH].
+Qed.
+
+Lemma fset_keys (st : fstate) k v : map fst (fset st k v) = map fst st.
+Proof.
+  induction st as [|[k0 v0] r IH]; cbn; [reflexivity|].
+  destruct (k0 =? k); cbn; [reflexivity|]. f_equal. exact IH.
+Qed.
+
+Lemma fget_app_new (st : fstate) k v k' : fhas st k = false ->
+  fget (st ++ [(k, v)]) k' = if k =? k' then (match fget st k' with Some x => Some x | None => Some v end) else fget st k'.
+Proof.
+  unfold fhas. induction st as [|[k0 v0] r IH]; cbn; intros H.
+  - destruct (k =? k'); reflexivity.
+  - destruct (Nat.eqb_spec k0 k) as [->|H0]; [discriminate|].
+    destruct (Nat.eqb_spec k0 k') as [->|H1].
+    + destruct (k =? k'); reflexivity.
+    + apply IH. exact H.
+Qed.
+
+(* frame: keys that are not in the position keep their value *)
+Lemma fupdate_frame strict : forall pos (st st' : fstate) k,
+  fupdate strict pos st = Some st' -> ~ In k (map fst pos) -> fget st' k = fget st k.
+Proof.
+  induction pos as [|[k0 v0] r IH]; intros st st' k H Hn; cbn in *.
+  - injection H as <-. reflexivity.
+  - assert (Hne : k0 <> k) by (intros ->; apply Hn; left; reflexivity).
+    assert (Hr : ~ In k (map fst r)) by (intros Hi; apply Hn; right; exact Hi).
+    destruct (fhas st k0) eqn:Hh.
+    + rewrite (IH _ _ k H Hr). apply fget_fset_neq. exact Hne.
+    + destruct strict; [discriminate|]. rewrite (IH _ _ k H Hr). rewrite fget_app_new by exact Hh.
+      destruct (Nat.eqb_spec k0 k); [contradiction|reflexivity].
+Qed.
+
+(* put-get *)
+Lemma fupdate_get strict : forall pos (st st' : fstate) k v,
+  NoDup (map fst pos) -> fupdate strict pos st = Some st' -> In (k, v) pos -> fget st' k = Some v.
+Proof.
+  induction pos as [|[k0 v0] r IH]; intros st st' k v N H Hin; [contradiction|].
+  cbn [map fst] in N. inversion N as [|x l Hnot N' Ex]; subst. cbn in H.
+  destruct Hin as [Heq|Hin].
+  - injection Heq as -> ->. destruct (fhas st k) eqn:Hh.
+    + rewrite (fupdate_frame strict r _ _ k H Hnot). apply fget_fset_eq. exact Hh.
+    + destruct strict; [discriminate|]. rewrite (fupdate_frame false r _ _ k H Hnot).
+      rewrite fget_app_new by exact Hh. rewrite Nat.eqb_refl.
+      unfold fhas in Hh. destruct (fget st k); [discriminate|reflexivity].
+  - destruct (fhas st k0); [apply (IH _ _ k v N' H Hin)|].
+    destruct strict; [discriminate|]. apply (IH _ _ k v N' H Hin).
+Qed.
+
+Theorem flat_put_get strict pos (st st' : fstate) : NoDup (map fst pos) ->
+  fupdate strict pos st = Some st' -> fextract (map fst pos) st' = Some (map snd pos).
+Proof.
+  intros N H.
+  assert (G : forall l, incl l pos -> fextract (map fst l) st' = Some (map snd l)).
+  { induction l as [|[k v] l IH]; intros Hl; [reflexivity|]. cbn.
+    rewrite (fupdate_get strict pos st st' k v N H) by (apply Hl; left; reflexivity).
+    rewrite IH; [reflexivity|]. intros x Hx. apply Hl. right. exact Hx. }
+  apply G. apply incl_refl.
+Qed.
+
+(* dataclass / named tuple: the fields stay the same, in the same order *)
+Theorem flat_strict_fields : forall pos (st st' : fstate),
+  fupdate true pos st = Some st' -> map fst st' = map fst st.
+Proof.
+  induction pos as [|[k v] r IH]; intros st st' H; cbn in H.
+  - injection H as <-. reflexivity.
+  - destruct (fhas st k); [|discriminate]. rewrite (IH _ _ H). apply fset_keys.
+Qed.
+
+(* get-put: putting values the state already holds changes nothing *)
+Lemma fset_same (st : fstate) k v : fget st k = Some v -> fset st k v = st.
+Proof.
+  induction st as [|[k0 v0] r IH]; cbn; [reflexivity|].
+  destruct (Nat.eqb_spec k0 k) as [->|Hne]; intros H.
+  - injection H as <-. reflexivity.
+  - f_equal. apply IH. exact H.
+Qed.
+
+Theorem flat_get_put strict : forall pos (st : fstate),
+  fextract (map fst pos) st = Some (map snd pos) -> fupdate strict pos st = Some st.
+Proof.
+  induction pos as [|[k v] r IH]; intros st H; [reflexivity|]. cbn in *.
+  destruct (fget st k) as [x|] eqn:Gk; [|discriminate].
+  destruct (fextract (map fst r) st) as [xs|] eqn:Ex; [|discriminate].
+  injection H as -> ->. unfold fhas. rewrite Gk. rewrite (fset_same st k v Gk). apply IH. exact Ex.
+Qed.
+
+End FlatLaws.
